@@ -65,6 +65,25 @@ class HarnessError(Exception):
     """The harness itself is inconsistent (exit code 2, never a violation)."""
 
 
+class Script:
+    """Scripted nested sends of one callback: {occurrence: [[event, args, kwargs], ...]}; the key "*" with
+    {"upto": L, "items": [...]} gives the same sends to every occurrence below L (self-triggering chains)."""
+
+    def __init__(self, sends):
+        self.star = sends.get("*")
+        self.by_occ = {int(k): v for k, v in sends.items() if k != "*"}
+
+    def get(self, occ, default=()):
+        if occ in self.by_occ:
+            return self.by_occ[occ]
+        if self.star is not None and occ < self.star["upto"]:
+            return self.star["items"]
+        return default
+
+    def __bool__(self):
+        return bool(self.by_occ) or self.star is not None
+
+
 # ------------------------------------------------------------------------------------------ recorder
 class H:
     """Per-instance recorder / script holder, reachable from machine, model and listeners (so a deep copy of
@@ -76,9 +95,14 @@ class H:
         self.occ = Counter()
         self.fault = None  # (cbid, occ)
         self.raised = []
-        self.sends = {cbid_of(c): {int(k): v for k, v in c.get("sends", {}).items()} for c in spec["cbs"]}
-        self.rets = {cbid_of(c): dec(c.get("ret")) for c in spec["cbs"]}
-        self.yields = {cbid_of(c): c.get("yields", 0) for c in spec["cbs"]}
+        self.sends, self.rets, self.yields = {}, {}, {}
+        for c in spec["cbs"]:  # several defs may share one cbid (same function attached to several groups): first wins
+            cid = cbid_of(c)
+            if cid in self.sends:
+                continue
+            self.sends[cid] = Script(c.get("sends", {}))
+            self.rets[cid] = dec(c.get("ret"))
+            self.yields[cid] = c.get("yields", 0)
         self.depth = False
         self.no_sender_yields = False
 
@@ -133,7 +157,7 @@ def make_action(cbid, group, is_async, free):
         async def body(args, machine, event, state, source, target, kwargs):
             Hh, occ = pre(args, machine, event, state, source, target, kwargs)
             script = Hh.sends[cbid].get(occ, ())
-            if not (script and Hh.no_sender_yields):
+            if not (Hh.sends[cbid] and Hh.no_sender_yields):
                 for _ in range(Hh.yields[cbid]):
                     await asyncio.sleep(0)
             maybe_fault(Hh, occ)
@@ -242,7 +266,7 @@ class Rendered:
         Hh.objs = objs
         if model == "default":
             model = objs.get("model")
-        ctor_listeners = [objs[p] for p in sorted(objs) if p.startswith("l")] if listeners is None else listeners
+        ctor_listeners = [objs[p] for p in sorted(objs) if p.startswith("l") and not p.startswith("late")] if listeners is None else listeners
         kwargs = dict(rtc=rtc, allow_event_without_transition=allow, **kw)
         if model is not None:
             kwargs["model"] = model
@@ -250,7 +274,8 @@ class Rendered:
             kwargs["listeners"] = ctor_listeners
         sm = self.cls(Hh, **kwargs)
         for p in late:
-            sm.add_listener(objs[p])
+            if p in objs:
+                sm.add_listener(objs[p])
         return sm, Hh
 
 
@@ -267,6 +292,8 @@ def render(spec, *, state_factory=None):
     prov_ns = {}  # provider -> namespace dict
     for c in cbs:
         cid = cbid_of(c)
+        if cid in funcs:
+            continue
         prov = c["prov"]
         free = c["attach"] == "func"
         fn = make_action(cid, c["group"], c.get("async", False), free)
@@ -434,6 +461,7 @@ class Interp:
         if is_async or True:
             self.queue.append(("__initial__", (), {}))
         self.stats = Counter()
+        self.fired = []  # indices of executed transitions, in order
 
     # ---- helpers over the spec
     def sid(self, i):
@@ -464,7 +492,7 @@ class Interp:
                     or (sc[0] == "event" and t is not None and sc[1] == event and event in t["events"])
                     or (sc[0] == "trans" and k in sc[1])
                 )
-            if ok:
+            if ok and cbid_of(c) not in out:
                 out.append(cbid_of(c))
         return out
 
@@ -599,6 +627,7 @@ class Interp:
                 self.run_group(self.group_cbs("enter", None, ev, t["dst"]), ctx, "enter")
             self.run_group(self.group_cbs("after", k, ev, None), ctx, "after")
             self.stats["transitions"] += 1
+            self.fired.append(k)
             return Result(before, on)
         if not self.allow:
             raise ExpTNA(ev, self.sid(src))
@@ -633,8 +662,7 @@ class Interp:
     def script_of(self, cbid, occ):
         for c in self.spec["cbs"]:
             if cbid_of(c) == cbid:
-                sends = c.get("sends", {})
-                return sends.get(str(occ), sends.get(occ, []))
+                return list(Script(c.get("sends", {})).get(occ, []))
         raise HarnessError(f"unknown callback {cbid}")
 
     def ret_of(self, cbid):
